@@ -44,7 +44,7 @@ CLAIMED = {
          'Histories of 30-50 seeds with heavily overlapping assets (10 URLs x 8 spellings, nested assets, redirects, pool URLs reused as seeds), sequential and with 4-8 seeds in flight; a check that started after another check of the same URL ended must be skipped (modulo seed-over-asset promotion), a skipped item needs a check that could have recorded it, and no URL is fetched by two non-seed nodes of a tree.',
          'Local LevelDB store at stage level; crawl-HQ store through full-pipeline HQ-mode runs against an HQ double; pool spellings are from a safe alphabet.', '4/C08'),
 
- 'C10': ('exploration', 'crash / CPU-and-memory-budget oracle over hostile responses served to the real preprocessor+postprocessor stages in isolated child processes (structure-aware generation + mutation of valid samples)',
+ 'C10': ('exploration', 'crash / CPU-and-memory-budget oracle over hostile responses served to the real preprocessor+postprocessor stages in isolated child processes (structure-aware generation + mutation of valid samples); AddressSanitizer build for the cgo URL parser on hostile URL texts',
          'Each input is regenerable from (seed, index); the index is written to disk before the input is processed, so a panic anywhere in the (recover-less) stage workers or a spin beyond the CPU/memory budget is attributed to its input; hangs are confirmed alone with 5x the budget unless they match a listed finding.',
          'Inputs are sampled (no coverage guidance in the quick tier); "forever" is a CPU/memory budget; listed finding: pdfcpu loops forever on some mutated PDFs (third party, no small fix).', '4/C10'),
 
